@@ -238,6 +238,20 @@ def faults(t):
     for v in (204, 205, 212, 219, 221, 299, "204"):
         case = {"kind": "make_header", "version": v}
         expect_refused(t, "C12|make_header|unsupported-2xx", case, lambda: hd.make_header(v))
+    # the same refusals through the client's per-call version override (serialize / a dry-run request)
+    from vf.core import private_xdg
+
+    private_xdg()
+    from ofxtools.Client import OFXClient
+    from ofxtools.models.ofx import OFX
+
+    for cfgv in (102, 203):
+        cl = OFXClient("http://x/ofx", version=cfgv)
+        ofx = OFX(signonmsgsrqv1=cl.signon("pw"))
+        for v in (0, 1, 99, 300, 999, 1000, "", "abc", -102, 204, 299):
+            case = {"kind": "client-version-override", "client_version": cfgv, "version": v}
+            expect_refused(t, "C12|client.serialize|version-override-not-supported", case, lambda: cl.serialize(ofx, version=v))
+            expect_refused(t, "C12|client.request_profile|version-override-not-supported", case, lambda: cl.request_profile(version=v, dryrun=True).read())
     for sec in ("TYPE2", "type1", "OFXSGML"):
         for v in (102, 203):
             expect_refused(t, "C12|make_header|bad-security", {"kind": "make_header", "version": v, "security": sec}, lambda: hd.make_header(v, security=sec))
@@ -285,7 +299,7 @@ def run(ctx):
         "every foreign token (tokens of all other fields + near misses) per enumerated field, OFXHEADER of the other kind, VERSION non-numeric/4-digit/unsupported, "
         "37-character UIDs, every mandatory field removed, every adjacent pair transposed, one stray non-ASCII byte / character at 3 places of each field value "
         "(v1 fields before NEWFILEUID, v2 numeric and enumerated attributes; 4 resp. 3 byte patterns) - through header text (parse_header and class parse) and constructor "
-        "keywords; make_header for versions outside 1xx/2xx",
+        "keywords; make_header, OFXClient.serialize(version=) and request_profile(version=, dryrun) for versions outside 1xx/2xx and unsupported 2xx",
         "valid_round_trips": len(jobs),
         "fault_cases": nfaults,
         "exhaustive": True,
